@@ -15,14 +15,29 @@ import (
 	"runtime/debug"
 	"sort"
 	"strconv"
+	"strings"
 	"testing"
 	"time"
 
+	"github.com/lightningnetwork/lnd/chanstate"
 	"github.com/lightningnetwork/lnd/verifmc/chanmc"
 	"github.com/lightningnetwork/lnd/verifmc/evid"
 )
 
 func sat(s int64, extraMsat uint64) uint64 { return uint64(s)*1000 + extraMsat }
+
+// tapRootType is a channel type of this harness only: simple taproot with a top-level
+// tapscript root committed to by the funding output (what custom / overlay channels
+// use; the MuSig2 funding key is tweaked with the root, GetSignedCommitTx and every
+// commitment signing session must apply the same tweak). engine/chanmc already gives
+// such a channel a root (world.go: ct.HasTapscriptRoot()) but lists no such type; it is
+// registered here at run time (no aux leaves: MockAuxLeafStore returns none, so all
+// other scripts equal plain taproot).
+const tapRootType = "taproot+root"
+
+func init() {
+	chanmc.ChanTypes[tapRootType] = chanmc.ChanTypes["taproot"] | chanstate.TapscriptRootBit
+}
 
 func max64(a, b int64) int64 {
 	if a > b {
@@ -124,11 +139,69 @@ func spaces(thorough bool) []job {
 			}}}})
 		}
 	}
-	// Order: quick 1,2,3,4; thorough: the small full-mode classes first, the big
-	// full-interleaving spaces last.
-	order := map[int]int{1: 1, 2: 2, 3: 3, 4: 4}
+	// (0) lopsided worlds (family "balance output absent"): the acceptor of the channel
+	// starts with nothing (B: exactly 0; A: 1 sat, the engine's smallest A share), so
+	// its to_local / to_remote output and - as long as no untrimmed HTLC exists - its
+	// anchor are ABSENT from the commitments (the case of every freshly opened channel
+	// without a push amount). One HTLC by the opener, settled, full interleaving: the
+	// acceptor's balance goes 0 -> amount, on the pending commitment first. Amount
+	// lattice (sat) against the two dust limits 200 (A) / 1300 (B):
+	//   199.999  the acceptor never has an output on either commitment
+	//   1299.999 its balance output exists on the commitment of the party with the
+	//            200 sat limit only (one below the other limit)
+	//   1300     exactly at the higher limit: output on both
+	//   30000    untrimmed HTLC output while the acceptor's balance is 0/1 sat (anchor
+	//            present without a balance output), then a balance output
+	// and 200 exactly (thorough). Crossing rule: every type x every amount; the poor
+	// party alternates with the type index in quick (types with both roles: thorough).
+	lopsided := []uint64{199_999, 1_299_999, 1_300_000, 30_000_000}
 	if thorough {
-		order = map[int]int{3: 1, 4: 2, 5: 3, 6: 4, 2: 5, 1: 6}
+		lopsided = append(lopsided, 200_000)
+	}
+	for ci, tc := range cases {
+		for _, amt := range lopsided {
+			p := chanmc.Params{Type: tc.typ}
+			// cases: quick ti%2==1 -> opener B; thorough adds the other assignment
+			if tc.openerB {
+				p.OpenerB, p.GrossA = true, 1 // A poor (1 sat)
+				p.Script = []chanmc.Intent{{By: 1, Amt: amt, Fate: "settle"}}
+			} else {
+				p.GrossA = 10 * 100_000_000 // = capacity: B has exactly 0
+				p.Script = []chanmc.Intent{{By: 0, Amt: amt, Fate: "settle"}}
+			}
+			// reloads (one cut anywhere): quick on the asymmetric amount, thorough on all
+			if thorough || amt == 1_299_999 {
+				p.MaxCuts = 1
+			}
+			out = append(out, job{cls: 0, full: thorough && ci < len(chanmc.AllTypes), sp: chanmc.Space{Dev: -1, P: p}})
+		}
+	}
+	// (7) tapscript-root taproot channel: one HTLC each way, both outputs on both
+	// commitments, a fee update, one reload; deviation bound 1 (quick: opener A;
+	// thorough: both openers, deviation bound 2).
+	{
+		th := chanmc.Thresholds(tapRootType, 6000, 200, 1300)
+		for _, ob := range []bool{false, true} {
+			if ob && !thorough {
+				continue
+			}
+			d := 1
+			if thorough {
+				d = 2
+			}
+			out = append(out, job{cls: 7, sp: chanmc.Space{Dev: d, P: chanmc.Params{Type: tapRootType, OpenerB: ob, MaxCuts: 1, Fees: []int64{7000}, Script: []chanmc.Intent{
+				{By: 0, Amt: sat(max64(th[0], th[1])+7, 500), Fate: "settle"}, {By: 1, Amt: sat(max64(th[2], th[3])+2000, 0), Fate: "fail"},
+			}}}})
+		}
+	}
+	// Order: quick 0,2,1,7,3,4; thorough: the small full-mode classes first, the big
+	// full-interleaving spaces last.
+	// (quick: the small lopsided worlds, then the reload + fee-update spaces - the only
+	// ones in which a fee update flips an HTLC across a dust threshold -, then the rest;
+	// on a loaded machine the deadline cuts from the end)
+	order := map[int]int{0: 0, 2: 1, 1: 2, 7: 3, 3: 4, 4: 5}
+	if thorough {
+		order = map[int]int{0: 0, 7: 1, 3: 2, 4: 3, 5: 4, 6: 5, 2: 6, 1: 7}
 	}
 	sort.SliceStable(out, func(a, b int) bool { return order[out[a].cls] < order[out[b].cls] })
 	return out
@@ -163,6 +236,7 @@ func replay(run *evid.Run, c *checker, path string) error {
 		fmt.Printf("INFO  mid-step: %c has verified the new commitment_signed, has not revoked yet\n", 'A'+p)
 		c.checkMidStep(w, p, true)
 	}
+	w.Hooks.AfterStep = c.afterStep
 	fmt.Printf("INFO replaying %d steps on %s\n", len(doc.Replay.History), doc.Replay.Params.Name())
 	for i, a := range doc.Replay.History {
 		fmt.Printf("INFO step %d: %s\n", i, a)
@@ -183,6 +257,7 @@ func replay(run *evid.Run, c *checker, path string) error {
 func TestC05(t *testing.T) {
 	run := evid.Start("C05", "exploration")
 	c := newChecker(run)
+	c.noProd = os.Getenv("VERIF_C05_NOPROD") == "1"
 	if rp := os.Getenv("VERIF_REPLAY"); rp != "" {
 		if err := replay(run, c, rp); err != nil {
 			t.Fatalf("replay: %v", err)
@@ -190,7 +265,7 @@ func TestC05(t *testing.T) {
 		os.Exit(run.Finish(map[string]any{"evaluations": c.engineOK.Load() + c.negOK.Load(), "distinct_nontrivial": c.classes.Distinct(),
 			"rule": "replay of one recorded history", "samples": []any{rp}}))
 	}
-	budget := 130 * time.Second
+	budget := 200 * time.Second
 	if run.Thorough() {
 		budget = 27 * time.Minute
 	}
@@ -200,6 +275,16 @@ func TestC05(t *testing.T) {
 		}
 	}
 	jobs := spaces(run.Thorough())
+	// development aid: VERIF_C05_CLASSES=0,2 restricts the run to those space classes
+	if f := os.Getenv("VERIF_C05_CLASSES"); f != "" {
+		var keep []job
+		for _, j := range jobs {
+			if strings.Contains(","+f+",", fmt.Sprintf(",%d,", j.cls)) {
+				keep = append(keep, j)
+			}
+		}
+		jobs = keep
+	}
 	if os.Getenv("VERIF_C05_FULL") == "1" {
 		for i := range jobs {
 			jobs[i].full = true
@@ -214,6 +299,14 @@ func TestC05(t *testing.T) {
 		}
 		sp = append(sp, jobs[i].sp)
 		sp[i].P.ProbeMidStep = true
+		sp[i].Hooks.AfterStep = func(w *chanmc.World, a string) {
+			defer func() {
+				if v := recover(); v != nil {
+					w.Violate("c05:panic", fmt.Sprintf("panic while loading a second channel handle: %v\n%s", v, debug.Stack()))
+				}
+			}()
+			c.afterStep(w, a)
+		}
 		sp[i].Hooks.OnMidStep = func(w *chanmc.World, p int) {
 			defer func() {
 				if v := recover(); v != nil {
@@ -234,6 +327,7 @@ func TestC05(t *testing.T) {
 	agg := chanmc.RunSpaces(run, sp, time.Now().Add(budget), 0)
 	rule := "cases = (distinct canonical state of the two-peer world [chanmc: both real LightningChannels + wires + explorer HTLC table; full interleaving or deviation-bounded, incl. `cut` = both sides reload from disk, and the terminal mid-step probe `probe>X` = X between ReceiveNewCommitment and RevokeCurrentCommitment, judged for X], node in {A,B}, confirmed commitment in {own latest, counterparty current, counterparty pending}); " +
 		"each case derives the node's real resolutions (ForceClose / NewUnilateralCloseSummary) and runs the btcd script interpreter (StandardVerifyFlags, true prev-outs) on the signed commitment vs the funding output, every second-level tx (as stored and re-signed in an aggregated sweep), and every sweep input built with the resolvers' input constructors; every CSV/CLTV-locked spend must also FAIL with a locktime error one block early; claimable value is compared with balance + HTLCs - 2nd-level fees - dust from the explorer's HTLC table. " +
+		"Families on top of the base spaces: lopsided worlds (the acceptor starts with 0 / 1 sat: balance output and anchor absent, balance lattice around both dust limits), a tapscript-root taproot type, and at every state the production path (channel object built from disk + ForceClose(WithSkipContractResolutions); second OpenChannel handles loaded at world creation / at every reload, refreshed as contractcourt.newChainSet does, then NewLocalForceCloseSummary / NewUnilateralCloseSummary on them): production-path resolutions equal in every spend-relevant field to the live-object ones inherit that verdict, all others are judged by the same interpreter + value oracle. " +
 		"evaluations = interpreter executions (accepting + early-spend controls); distinct_nontrivial = distinct canonical states at which at least one HTLC-output spend was validated"
 	cov := agg.Coverage(rule)
 	cov["evaluations"] = c.engineOK.Load() + c.negOK.Load()
@@ -261,9 +355,27 @@ func TestC05(t *testing.T) {
 		"outcome_classes":                            c.classes.Map(),
 		"distinct_outcome_classes":                   c.classes.Distinct(),
 		"witness_types_exercised":                    c.witTypes.Map(),
+		"scenarios_without_own_balance_output":       c.noBalOut.Load(),
+		"production_path": map[string]any{
+			"second_handles_loaded":                c.handlesLoaded.Load(),
+			"from_disk_force_closes_validated":     c.prodArb.Load(),
+			"from_disk_cpfp_anchors_validated":     c.prodAnchorsJudged.Load(),
+			"watcher_handle_derivations":           c.prodDeliveries.Load(),
+			"identical_to_live_object_resolutions": c.prodIdentical.Load(),
+			"differing_judged_by_full_oracle":      c.prodJudged.Load(),
+			"memo_hits":                            c.prodMemoHits.Load(),
+			"cpu_s":                                float64(c.prodNanos.Load()) / 1e9,
+			"cpu_s_fetch":                          float64(c.tFetch.Load()) / 1e9,
+			"cpu_s_from_disk_channel":              float64(c.tArb.Load()) / 1e9,
+			"cpu_s_handle_refresh":                 float64(c.tRefresh.Load()) / 1e9,
+			"cells_type_role_handleage_commitment": c.prodCells.Map(),
+			"distinct_cells":                       c.prodCells.Distinct(),
+			"outcomes":                             c.prodOutcome.Map(),
+		},
 	}
 	run.Assumptions = append(run.Assumptions,
-		"scripts of at most 3 HTLCs and one fee update on the chanmc fixture (5 BTC per side, dust 200/1300, CSV 5/4, lease expiry 500000); custom (aux-leaf) channels outside the alphabet",
+		"scripts of at most 3 HTLCs and one fee update on the chanmc fixture (5 BTC per side, or the acceptor starting with 0 / 1 sat in the lopsided worlds; dust 200/1300, CSV 5/4, lease expiry 500000); custom (aux-leaf) channels outside the alphabet",
+		"production path: second handles are loaded at world creation and at every reload (a watcher is as old as the last start-up), refreshed by a transcription of contractcourt.newChainSet (LatestCommitments, RemoteCommitChainTip, RemoteRevocationStore); resolutions whose every spend-relevant field equals the live-object ones inherit the base scenario's verdict, any other is judged by the full oracle; the chain watcher's own goroutines are not executed (C12/C04 run the real watcher)",
 		"mid-step probes (terminal action probe>X: X has run ReceiveNewCommitment but not RevokeCurrentCommitment) judge all three scenarios for X on the live object; the other node's objects are untouched by that call",
 		"a party's own close is checked from local height 1 on (the fixture's height-0 commitment carries a fake signature)",
 		"for a counterparty close the confirmed transaction is the node's own copy of that commitment (C01's oracle, active in this run, proves it equals the counterparty's)",
